@@ -460,6 +460,19 @@ class Interp:
         if t == "Unary":
             v = self.eval(e["expr"], env)
             return self.unary(e["op"], v, e)
+        if t == "Try":
+            v = self.eval(e["expr"], env)
+            if isinstance(v, Opt):
+                if not v.some:
+                    raise ReturnEx(NONE)
+                return v.v
+            if isinstance(v, Res):
+                if not v.ok:
+                    raise ReturnEx(v)
+                return v.v
+            raise Unanalysable(f"`?` on {v!r}")
+        if t == "Index":
+            return self.index(self.eval(e["expr"], env), self.eval(e["index"], env), e)
         if t == "Return":
             raise ReturnEx(self.eval(e["expr"], env) if e["expr"] else UNIT)
         if t == "Break":
@@ -481,6 +494,11 @@ class Interp:
         if t == "Array":
             return [self.eval(x, env) for x in e["elems"]]
         raise Unanalysable(f"expression kind {t} not modelled")
+
+    def index(self, base, idx, node):
+        if isinstance(base, list) and isinstance(idx, int) and not isinstance(idx, bool) and 0 <= idx < len(base):
+            return base[idx]
+        raise Unanalysable(f"indexing {base!r}[{idx!r}]")
 
     def call_value(self, f, args, node):
         raise Unanalysable("call of a local value")
